@@ -624,7 +624,9 @@ func (x *extractor) emit() []byte {
 		}
 		b.WriteString("] }")
 	}
-	b.WriteString("]\n\ndef table : AccessTable := ⟨accessTable, funcTable, typeTable⟩\n\nend Gen\n")
+	b.WriteString("]\n\ndef table : AccessTable := ⟨accessTable, funcTable, typeTable⟩\n\n")
+	x.emitFlights(&b)
+	b.WriteString("end Gen\n")
 	return b.Bytes()
 }
 
@@ -1561,4 +1563,117 @@ func (w *walker) calleeOfExpr(e ast.Expr) *cfunc {
 		return w.x.funcOf(w.p.info.Uses[f.Sel])
 	}
 	return nil
+}
+
+// ---------------------------------------------------------------------------------------------
+// single-flight facts: every `<memoize.Group>.Do(ctx, key, fn)` call site and, for its fetch
+// function, the context facts (a context captured from outside the literal; a context parameter
+// that is never used; a fetch function that cannot be inspected).
+
+func isContextType(t types.Type) bool {
+	n, ok := t.(*types.Named)
+	return ok && n.Obj().Pkg() != nil && n.Obj().Pkg().Path() == "context" && n.Obj().Name() == "Context"
+}
+
+type flightCall struct{ pos, group, fn string }
+type ctxFact struct{ pos, group, kind, ident string }
+
+func (x *extractor) ctxParamUse(p *cpkg, ftype *ast.FuncType, body *ast.BlockStmt, lit ast.Node, group string) []ctxFact {
+	var facts []ctxFact
+	var param *types.Var
+	if ftype.Params != nil {
+		for _, fl := range ftype.Params.List {
+			for _, nm := range fl.Names {
+				if pv, ok := p.info.Defs[nm].(*types.Var); ok && isContextType(pv.Type()) && param == nil {
+					param = pv
+				}
+			}
+		}
+	}
+	used := false
+	ast.Inspect(body, func(n ast.Node) bool {
+		id, ok := n.(*ast.Ident)
+		if !ok {
+			return true
+		}
+		v, ok := p.info.Uses[id].(*types.Var)
+		if !ok || !isContextType(v.Type()) {
+			return true
+		}
+		if v == param {
+			used = true
+			return true
+		}
+		if lit != nil && (v.Pos() < lit.Pos() || v.Pos() >= lit.End()) {
+			facts = append(facts, ctxFact{pos: x.pos(id.Pos()), group: group, kind: "captured", ident: id.Name})
+		}
+		return true
+	})
+	if !used {
+		facts = append(facts, ctxFact{pos: x.pos(body.Pos()), group: group, kind: "paramUnused", ident: "ctx"})
+	}
+	return facts
+}
+
+func (x *extractor) emitFlights(b *bytes.Buffer) {
+	var calls []flightCall
+	var facts []ctxFact
+	for _, p := range x.pkgs {
+		for _, f := range p.files {
+			ast.Inspect(f, func(n ast.Node) bool {
+				c, ok := n.(*ast.CallExpr)
+				if !ok {
+					return true
+				}
+				sel, ok := c.Fun.(*ast.SelectorExpr)
+				if !ok || (sel.Sel.Name != "Do" && sel.Sel.Name != "DoChan") || syncKind(p.info.TypeOf(sel.X)) != "memoize" {
+					return true
+				}
+				group := p.dir + ":" + types.ExprString(sel.X)
+				pos := x.pos(c.Pos())
+				if len(c.Args) != 3 {
+					facts = append(facts, ctxFact{pos: pos, group: group, kind: "unknownFn", ident: "arity"})
+					return true
+				}
+				fnName := types.ExprString(c.Args[2])
+				switch a := stripParens(c.Args[2]).(type) {
+				case *ast.FuncLit:
+					fnName = "func literal"
+					facts = append(facts, x.ctxParamUse(p, a.Type, a.Body, a, group)...)
+				default:
+					var fn *cfunc
+					switch a := a.(type) {
+					case *ast.Ident:
+						fn = x.funcOf(p.info.Uses[a])
+					case *ast.SelectorExpr:
+						fn = x.funcOf(p.info.Uses[a.Sel])
+					}
+					if fn == nil || fn.decl == nil {
+						facts = append(facts, ctxFact{pos: pos, group: group, kind: "unknownFn", ident: fnName})
+					} else {
+						fnName = fn.name
+						facts = append(facts, x.ctxParamUse(fn.pkg, fn.decl.Type, fn.decl.Body, nil, group)...)
+					}
+				}
+				calls = append(calls, flightCall{pos: pos, group: group, fn: fnName})
+				return true
+			})
+		}
+	}
+	b.WriteString("/-- every call site of memoize.Group.Do -/\ndef flightCalls : List FlightCall := [")
+	for i, c := range calls {
+		if i > 0 {
+			b.WriteString(",")
+		}
+		fmt.Fprintf(b, "\n  ⟨%s, %s, %s⟩", leanString(c.pos), leanString(c.group), leanString(c.fn))
+	}
+	b.WriteString("]\n\n/-- context facts about the fetch functions (must be empty: the fetch runs under the flight's context) -/\ndef flightCtxFacts : List CtxFact := [")
+	for i, c := range facts {
+		if i > 0 {
+			b.WriteString(",")
+		}
+		fmt.Fprintf(b, "\n  ⟨%s, %s, .%s, %s⟩", leanString(c.pos), leanString(c.group), c.kind, leanString(c.ident))
+		fmt.Fprintf(os.Stderr, "translator: conc: flight context fact %s at %s (%s)\n", c.kind, c.pos, c.ident)
+	}
+	b.WriteString("]\n\n")
 }
